@@ -1,6 +1,6 @@
 #!/usr/bin/env python3
 """Re-runs the quick check of every seeded change (seeded/*/patch.diff applied to a scratch copy of /repo/include)
-and reports which are (still) caught.  usage: seed_regression.py [--jobs N] [--only PID[,PID..]] [--verif DIR]
+and reports which are (still) caught.  usage: seed_regression.py [--jobs N] [--only PID[,PID..]] [--names NAME[,NAME..]] [--verif DIR]
 Properties run in parallel, the seeds of one property sequentially (they share .work/<PID>)."""
 import json, os, sys, glob, shutil, subprocess, argparse, time
 from concurrent.futures import ThreadPoolExecutor
@@ -8,13 +8,17 @@ ap = argparse.ArgumentParser()
 ap.add_argument("--jobs", type=int, default=4)
 ap.add_argument("--only", default="")
 ap.add_argument("--verif", default="/verif")
+ap.add_argument("--names", default="", help="comma-separated seeded/<name> directories to restrict to")
 a = ap.parse_args()
 ROOT = "/verif"
 only = set(x for x in a.only.split(",") if x)
+names = set(x for x in a.names.split(",") if x)
 by_pid = {}
 for f in sorted(glob.glob(os.path.join(ROOT, "seeded", "*", "meta.json"))):
     m = json.load(open(f))
-    if m.get("outside_claim"):
+    if names and os.path.basename(os.path.dirname(f)) not in names:
+        continue
+    if m.get("outside_claim") and not names:
         continue            # documented example of what a claim does not cover: expected to pass the check
     for pid in m["checks"]:
         if only and pid not in only:
